@@ -187,6 +187,43 @@ fn shape_of(g: &cfgrammar::yacc::YaccGrammar<u32>, t: &PTree) -> String {
     }
 }
 
+/// grammars in which symbols derive nothing through non-empty productions (and optionally
+/// something), placed at random positions among tokens
+fn eps_family(rng: &mut Rng) -> String {
+    let mut s = String::from("%start S\n%%\n");
+    let n = rng.range(2, 5);
+    let mut rhs = Vec::new();
+    let mut tok = 0;
+    for _ in 0..n {
+        match rng.below(5) {
+            0 => rhs.push("M".to_string()),
+            1 => rhs.push("N".to_string()),
+            2 => rhs.push("O".to_string()),
+            _ => {
+                rhs.push(format!("'t{}'", tok));
+                tok += 1;
+            }
+        }
+    }
+    if tok == 0 {
+        rhs.insert(rng.below(rhs.len() + 1), "'t0'".to_string());
+    }
+    let wrap = rng.chance(1, 2);
+    if wrap {
+        s.push_str(&format!("S: 'w' T | T;\nT: {};\n", rhs.join(" ")));
+    } else {
+        s.push_str(&format!("S: {};\n", rhs.join(" ")));
+    }
+    // M derives nothing through a two-symbol production; N through a unit chain; O is optional
+    s.push_str(match rng.below(3) {
+        0 => "M: E E;\n",
+        1 => "M: E O2;\n",
+        _ => "M: O2 E;\n",
+    });
+    s.push_str("N: M;\nO: 'o' | ;\nO2: 'p' | ;\nE: ;\n");
+    s
+}
+
 pub fn run(a: &Args) {
     let mut out = Out::new(&a.out);
     let mut worker = Worker::new();
@@ -213,6 +250,12 @@ pub fn run(a: &Args) {
             "%start T\n%%\nT: E; E: ;",
             "%start S\n%%\nS: A B C; A: 'a' | ; B: 'b' | ; C: 'c' | ;",
             "%start S\n%%\nS: L; L: L 'x' | ;",
+            // symbols that derive nothing through NON-empty productions, in first/middle/last position
+            "%start D\n%%\nD: 'l' I; I: M 'i'; M: V K; V: 'p' | ; K: 's' | ;",
+            "%start S\n%%\nS: 'a' M 'b'; M: V K; V: ; K: ;",
+            "%start S\n%%\nS: 'a' 'b' M; M: V K; V: ; K: ;",
+            "%start S\n%%\nS: M 'a' 'b'; M: N; N: V; V: ;",
+            "%start S\n%%\nS: 'a' T; T: M N 'b' M; M: V V; N: M; V: ;",
         ] {
             emit(&mut out, &mut worker, t, &mut rng, a.thorough, "corpus");
         }
@@ -223,6 +266,11 @@ pub fn run(a: &Args) {
             continue;
         }
         let mut rng = Rng::for_case(a.seed, 8, case as u64 + 1);
+        if case % 6 == 0 {
+            let t = eps_family(&mut rng);
+            emit(&mut out, &mut worker, &t, &mut rng, a.thorough, "eps_family");
+            continue;
+        }
         let cfg = GenCfg { precs: rng.chance(1, 5), ..GenCfg::default() };
         let g = grammar::random_grammar(&mut rng, &cfg);
         emit(&mut out, &mut worker, &g.render(), &mut rng, a.thorough, "random");
